@@ -52,6 +52,14 @@ def programs():
                                              el('k', 'y', omit=py('ov'), ns_element=True, keep_omit=True,
                                                 content=['text', py('v')])),
         [['v', 'int', 0], ['ov', 'bool', 0]], ['element', 'element-renamed'])
+    # inside a declared default namespace, one element mixing data-form and prefix-form statements
+    xh = el('div', el('p', 'x', static=[['id', 'k'], ['class', 'c']], content=['text', py('v')],
+                      attributes=[['title', py('v')]], i18n_domain='dd', data_for=['content', 'i18n_domain']),
+            el('q', 'y', static=[['id', 'k2']], define=[['local', 'w', py('v + 1')]], content=['text', py('w')],
+               data_for=['define']),
+            static=[['xmlns', 'http://www.w3.org/1999/xhtml'], ['data-x', '1']], close_indent=0)
+    out.append(('default-namespace-mixed-forms', xh, [['v', 'int', 0]], ['default', 'renamed-root'],
+                {'data_option': True, 'must_contain': ['xmlns="http://www.w3.org/1999/xhtml"', 'id="k"', 'id="k2"', 'data-x="1"']}))
     # the option alone must leave ordinary data-* attributes (and prefixed statements) alone
     add('data-option-with-prefixed-statements', root(el('p', 'x', static=[['data-a-b', 'q'], ['class', 'c']],
                                                         content=['text', py('v')], attributes=[['id', py('v')]])),
